@@ -73,3 +73,35 @@ Definition acyclic (is_std : string -> bool) (env : uenv) : Prop :=
                      lookup env (ui_ref it) <> None -> rank (ui_ref it) < rank n.
 
 Definition chain3 : uenv := [("c", [item "b"; item "a"]); ("b", [item "a"]); ("a", [])].
+
+(** The repair fixes/C01-units-cycle-guard.diff: utilities.cpp hasUnitsCycle / unitsCycleFrom — a depth-first walk over the
+    units references that keeps the PATH of units being followed and answers "cyclic" when it meets one of them again (the
+    'done' list of the C++ only saves work).  The public entry points consult it first and give the answer they already
+    give for undefined units.  [safe fuel path n] = "no units on the path is met again below n"; the walk is given fuel
+    |env| + 1, which it cannot exhaust: the path never repeats a name and only holds names defined in env. *)
+Fixpoint safe (is_std : string -> bool) (env : uenv) (fuel : nat) (path : list string) (n : string) : bool :=
+  match fuel with
+  | O => false
+  | S f =>
+      negb (existsb (String.eqb n) path)
+      && match lookup env n with
+         | None => true
+         | Some its => forallb (fun it => is_std (ui_ref it)
+                                          || match lookup env (ui_ref it) with
+                                             | None => true                       (* unitsCycleFrom(nullptr) *)
+                                             | Some _ => safe is_std env f (n :: path) (ui_ref it)
+                                             end) its
+         end
+  end.
+Definition has_units_cycle (is_std : string -> bool) (env : uenv) (n : string) : bool :=
+  negb (safe is_std env (S (length env)) [] n).
+
+(** Units::scalingFactor with the guard: 0.0 (here RFalse) for cyclic units, the unguarded reduction otherwise *)
+Definition guarded_multiplier (is_std : string -> bool) (std_log : string -> Z) (env : uenv) (n : string) : rres :=
+  if has_units_cycle is_std env n then RFalse else update_unit_multiplier is_std std_log env (S (length env)) n.
+
+(** flipped to true by the orchestrator when fixes/C01-units-cycle-guard.diff is committed to /repo *)
+Definition units_cycle_guard_committed : bool := true.
+Definition multiplier_head (is_std : string -> bool) (std_log : string -> Z) (env : uenv) (n : string) : rres :=
+  if units_cycle_guard_committed then guarded_multiplier is_std std_log env n
+  else update_unit_multiplier is_std std_log env (S (length env)) n.
